@@ -296,33 +296,40 @@ pub(crate) fn add(ctx: &mut TulispContext) {
             ));
         }
         let mut local = Scope::default();
-        for varitem in varlist.base_iter() {
-            if varitem.symbolp() {
-                local.set(varitem, TulispObject::nil())?;
-            } else if varitem.consp() {
-                destruct_bind!((&optional name value &rest rest) = varitem);
-                if name.null() {
+        let mut bind_all = |local: &mut Scope| -> Result<(), Error> {
+            for varitem in varlist.base_iter() {
+                if varitem.symbolp() {
+                    local.set(varitem, TulispObject::nil())?;
+                } else if varitem.consp() {
+                    destruct_bind!((&optional name value &rest rest) = varitem);
+                    if name.null() {
+                        return Err(Error::new(
+                            ErrorKind::Undefined,
+                            "let varitem requires name".to_string(),
+                        ));
+                    }
+                    if !rest.null() {
+                        return Err(Error::new(
+                            ErrorKind::Undefined,
+                            "let varitem has too many values".to_string(),
+                        ));
+                    }
+                    local.set(name, eval(ctx, &value)?)?;
+                } else {
                     return Err(Error::new(
-                        ErrorKind::Undefined,
-                        "let varitem requires name".to_string(),
+                        ErrorKind::SyntaxError,
+                        format!(
+                            "varitems inside a let-varlist should be a var or a binding: {}",
+                            varitem
+                        ),
                     ));
-                }
-                if !rest.null() {
-                    return Err(Error::new(
-                        ErrorKind::Undefined,
-                        "let varitem has too many values".to_string(),
-                    ));
-                }
-                local.set(name, eval(ctx, &value)?)?;
-            } else {
-                return Err(Error::new(
-                    ErrorKind::SyntaxError,
-                    format!(
-                        "varitems inside a let-varlist should be a var or a binding: {}",
-                        varitem
-                    ),
-                ));
-            };
+                };
+            }
+            Ok(())
+        };
+        if let Err(e) = bind_all(&mut local) {
+            local.remove_all()?;
+            return Err(e);
         }
 
         let ret = ctx.eval_progn(&rest);
@@ -575,10 +582,20 @@ pub(crate) fn add(ctx: &mut TulispContext) {
         let mut list = ctx.eval(&list)?;
         var.set_scope(list.car()?)?;
         while list.is_truthy() {
-            let eval_res = ctx.eval_progn(&body);
-            eval_res?;
-            list = list.cdr()?;
-            var.set_unchecked(list.car()?);
+            let step = ctx
+                .eval_progn(&body)
+                .and_then(|_| list.cdr())
+                .and_then(|rest| rest.car().map(|first| (rest, first)));
+            match step {
+                Ok((rest, first)) => {
+                    list = rest;
+                    var.set_unchecked(first);
+                }
+                Err(e) => {
+                    var.unset()?;
+                    return Err(e);
+                }
+            }
         }
         var.unset()?;
         ctx.eval(&result)
@@ -591,8 +608,10 @@ pub(crate) fn add(ctx: &mut TulispContext) {
         var.set_scope(TulispObject::from(0))?;
         for counter in 0..count.as_int()? {
             var.set_unchecked(TulispObject::from(counter));
-            let eval_res = ctx.eval_progn(&body);
-            eval_res?;
+            if let Err(e) = ctx.eval_progn(&body) {
+                var.unset()?;
+                return Err(e);
+            }
         }
         var.unset()?;
         ctx.eval(&result)
